@@ -12,10 +12,9 @@ use crate::util::*;
 /// canonical JSON of the two payloads, written by hand (independent of every library)
 fn payload_canonical(p: &str) -> String {
     let z = if BIG.with(|b| b.get()) { format!(r#","z":"{}""#, "a".repeat(70000)) } else { String::new() };
-    match p {
-        "p0" => format!(r#"{{"a":0,"b":"const","n":{{"x":[1,{{"y":null}}]}}{z}}}"#),
-        _ => format!(r#"{{"a":1,"b":"const","n":{{"x":[1,{{"y":null}}]}}{z}}}"#),
-    }
+    let n = if LATE.with(|b| b.get()) { ["t", "v", "w"] } else { ["a", "b", "n"] };
+    let a = if p == "p0" { 0 } else { 1 };
+    format!(r#"{{"{}":{a},"{}":"const","{}":{{"x":[1,{{"y":null}}]}}{z}}}"#, n[0], n[1], n[2])
 }
 
 /// The key version as it appears in the key ID: key "2" has a long one (no length limit applies to signing key versions here).
@@ -26,6 +25,8 @@ fn version_of(key: &str) -> String {
 thread_local! {
     /// whether the object under test carries a large member (canonical JSON beyond 65535 bytes)
     static BIG: std::cell::Cell<bool> = const { std::cell::Cell::new(false) };
+    /// whether the members of the object under test all sort after "signatures"
+    static LATE: std::cell::Cell<bool> = const { std::cell::Cell::new(false) };
 }
 
 fn seed_of(key: &str) -> u8 {
@@ -57,9 +58,11 @@ fn build(obj: &Value) -> CanonicalJsonObject {
 
 fn build_with(obj: &Value, damage: usize) -> CanonicalJsonObject {
     let mut o = CanonicalJsonObject::new();
-    o.insert("a".into(), cj(json!(if obj["payload"] == "p0" { 0 } else { 1 })));
-    o.insert("b".into(), cj(json!("const")));
-    o.insert("n".into(), cj(json!({"x": [1, {"y": null}]})));
+    // member names before "signatures" in the sort order, or (LATE) all after it, on both sides of "unsigned"
+    let names = if LATE.with(|b| b.get()) { ["t", "v", "w"] } else { ["a", "b", "n"] };
+    o.insert(names[0].into(), cj(json!(if obj["payload"] == "p0" { 0 } else { 1 })));
+    o.insert(names[1].into(), cj(json!("const")));
+    o.insert(names[2].into(), cj(json!({"x": [1, {"y": null}]})));
     if BIG.with(|b| b.get()) {
         o.insert("z".into(), cj(json!("a".repeat(70000))));
     }
@@ -166,6 +169,16 @@ pub fn replay(_args: &[String]) {
             BIG.with(|b| b.set(false));
             if big != o {
                 o = json!({"res": format!("big-object-differs: {} vs {}", big["res"], o["res"]), "small": o, "big": big});
+            }
+        }
+        // ... and on an object all of whose members sort after "signatures"
+        if i % 5 == 0 {
+            LATE.with(|b| b.set(true));
+            let late = run_case(&c);
+            LATE.with(|b| b.set(false));
+            let small = if o.get("small").is_some() { o["small"].clone() } else { o.clone() };
+            if late != small && o.get("small").is_none() {
+                o = json!({"res": format!("late-keys-object-differs: {} vs {}", late["res"], o["res"]), "small": o, "big": late});
             }
         }
         o["i"] = json!(i);
